@@ -13,6 +13,7 @@ The reference evaluator uses plain Python arithmetic on the *tree structure*,
 so grouping in the reference is by construction the grouping of the tree.
 No BPTK_Py import in the reference part.
 """
+import collections
 import math
 import statistics
 
@@ -31,6 +32,9 @@ class Fragile(Exception):
 
 def is_bool_tree(t):
     return t[0] in BOOL_KINDS
+
+
+NOTES = collections.Counter()  # how often the reference met a class of input worth counting (read and cleared by the checks)
 
 
 class RefEval:
@@ -187,9 +191,9 @@ class RefEval:
                         raise Fragile("log-domain")
                     return math.log10(a[0])
                 if fn == "int":
-                    if a[0] < 0:
-                        raise Fragile("int-negative")
-                    self._apart(a[0] + 0.5, float(round(a[0] + 0.5)) if abs(a[0] - round(a[0])) > 1e-12 else a[0] + 0.5, "int") if False else None
+                    # XMILE 1.0 (3.5.1): INT(x) is the largest integer <= x, also for negative x
+                    if a[0] < 0 and a[0] != math.floor(a[0]):
+                        NOTES["int-of-negative-fraction"] += 1
                     if abs(a[0] - round(a[0])) < 1e-6 and a[0] != round(a[0]):
                         raise Fragile("int-edge")
                     return math.floor(a[0])
